@@ -62,6 +62,8 @@ DecaySums == UNION {{Sub(Decay(a, ij[1]), Decay(b, ij[2])), Add(Decay(a, ij[1]),
                     : a \in LimC, b \in LimC, ij \in {p \in (1..3) \X (1..3) : p[1] # p[2]}}
 LimBodies == DecaySums \cup {Div(K(1), d) : d \in DecaySums} \cup {Neg(Div(K(2), d)) : d \in DecaySums}
              \cup {Pow(d, 2) : d \in DecaySums} \cup {<<"op", "^", d, K(-1)>> : d \in DecaySums}
+             \cup {Div(K(1), Div(d, K(-3))) : d \in DecaySums} \cup {Div(X, Mul(K(-2), d)) : d \in DecaySums} \cup {Mul(Pow(X, 2), d) : d \in DecaySums}
+             \cup {Div(Pow(X, 2), Neg(Add(X, K(1)))), Div(Pow(X, 2), Mul(X, K(-3))), Div(Neg(X), Add(Pow(X, 2), K(1))), Mul(Neg(X), Div(K(2), X))}
              \cup UNION {{Div(Expanded(c), Add(X, K(1))), Div(Add(X, K(-1)), Expanded(c)), Div(Expanded(c), Add(Pow(X, 2), K(1)))}
                           : c \in {q \in Polys : Len(q) >= 2 /\ q[Len(q)] # 0}}
 LimUniverse == {<<"lim", "x", <<"inf", 1>>, b, "">> : b \in LimBodies}
